@@ -1745,7 +1745,7 @@ def _build_fn(sf: SourceFile, item: Item, impl, ex: Extract, props, rep, unit, a
     body_toks = list(toks_all[item.hdr_end:item.end])   # includes braces
 
     # optional: inline block extraction (R0 anchors)
-    if "block_from" in a or "block_back" in a or "block_arm" in a or "field_init" in a or "block_closure" in a:
+    if "block_from" in a or "block_back" in a or "block_arm" in a or "field_init" in a or "block_closure" in a or "block_last" in a:
         body_toks = _extract_block(body_toks, a.get("block_from", ""), a.get("block_to"), a, rep)
         sig_toks = lex(a["wrap"])
         qual = qual + "#" + (a.get("blockname") or "block")
@@ -2007,7 +2007,7 @@ def _build_fn(sf: SourceFile, item: Item, impl, ex: Extract, props, rep, unit, a
         rep.append(("R0", f"fn renamed to {ex.rename}"))
     where_txt = ""
     wpos = _top_level_where(sig_toks)
-    if wpos is not None and "block_from" not in a and "block_back" not in a and "block_arm" not in a and "field_init" not in a and "block_closure" not in a:
+    if wpos is not None and "block_from" not in a and "block_back" not in a and "block_arm" not in a and "field_init" not in a and "block_closure" not in a and "block_last" not in a:
         where_txt = text_of(sig_toks[wpos:]).strip()
         sig_text = text_of(sig_toks[:wpos]).rstrip()
     if ex.ret:
@@ -2338,6 +2338,35 @@ def _extract_block(body_toks, frm, to, a, rep):
         rep.append(("R0", f"inline block: body of the match arm `{a['block_arm'][:60]}` wrapped as `{a['wrap']}`"))
         tail = a.get("tail", "")
         return [T(PUNCT, "{"), T(WS, "\n")] + body_toks[ob + 1:cb] + [T("raw", "\n" + tail + "\n"), T(PUNCT, "}")]
+    if a.get("block_last"):
+        # the last statement of the function body (whatever its text): e.g. the final `if .. else ..` of a function whose
+        # head is not within reach
+        close = len(body_toks) - 1
+        while close >= 0 and body_toks[close].text != "}":
+            close -= 1
+        # split the body into top-level statements (forward scan at depth 0)
+        opn = next(q for q, t in enumerate(body_toks) if t.text == "{")
+        starts = []; q = _next_sig(body_toks, opn); cur = q
+        while q < close:
+            tk = body_toks[q]
+            if tk.kind == PUNCT and tk.text in OPEN:
+                e_ = match_close(body_toks, q)
+                if tk.text == "{":
+                    nx = _next_sig(body_toks, e_)
+                    if nx >= close or not (body_toks[nx].text in (".", "?", ")", ",", ";") or (body_toks[nx].kind == IDENT and body_toks[nx].text in ("else", "as"))):
+                        starts.append(cur); q = _next_sig(body_toks, e_); cur = q; continue
+                q = e_ + 1; continue
+            if tk.kind == PUNCT and tk.text == ";":
+                starts.append(cur); q = _next_sig(body_toks, q); cur = q; continue
+            q += 1
+        if cur < close and any(t.kind not in (WS, COMMENT) for t in body_toks[cur:close]):
+            starts.append(cur)
+        if not starts:
+            raise AnchorLost("block_last: empty function body")
+        st = starts[-1]
+        rep.append(("R0", f"inline block: the last statement of the body wrapped as `{a['wrap']}`"))
+        tail = a.get("tail", "")
+        return [T(PUNCT, "{"), T(WS, "\n")] + body_toks[st:close] + [T("raw", "\n" + tail + "\n"), T(PUNCT, "}")]
     if a.get("block_closure"):
         # the whole body `{ ... }` of the closure whose header text is given (`CALL(|params|`): independent of the text of the
         # statements inside
@@ -2346,6 +2375,36 @@ def _extract_block(body_toks, frm, to, a, rep):
         if len(ch) != 1:
             raise AnchorLost(f"block_closure {a['block_closure']!r}: {len(ch)} matches")
         ob = _next_sig(body_toks, ch[0][1])
+        if cp[-1] == "(":
+            # the anchor names only the call (`flat_map(`): the closure header `[move] |p1, p2|` follows; its parameters are
+            # renamed to the names the wrapper declares (`closure_params="a b"`), so renaming a closure parameter in the
+            # source keeps the block within reach (alpha-renaming; refused if the new name already occurs in the body)
+            if ob < len(body_toks) and body_toks[ob].text == "move":
+                ob = _next_sig(body_toks, ob)
+            if ob >= len(body_toks) or body_toks[ob].text != "|":
+                raise AnchorLost(f"block_closure {a['block_closure']!r}: no closure follows the call")
+            k = _next_sig(body_toks, ob); names = []
+            while k < len(body_toks) and body_toks[k].text != "|":
+                if body_toks[k].kind == IDENT and body_toks[k].text not in ("mut", "ref"):
+                    names.append(body_toks[k].text)
+                k = _next_sig(body_toks, k)
+            want = (a.get("closure_params") or "").split()
+            ob = _next_sig(body_toks, k)
+            if ob >= len(body_toks) or body_toks[ob].text != "{":
+                raise AnchorLost(f"block_closure {a['block_closure']!r}: the closure body is not a block")
+            cb0 = match_close(body_toks, ob)
+            if want:
+                if len(want) != len(names):
+                    raise AnchorLost(f"block_closure {a['block_closure']!r}: closure has parameters {names}, wrapper expects {want}")
+                ren = {n: w for n, w in zip(names, want) if n != w}
+                for w in ren.values():
+                    if any(t.kind == IDENT and t.text == w for t in body_toks[ob:cb0]):
+                        raise AnchorLost(f"block_closure: cannot rename a closure parameter to `{w}`: the name occurs in the body")
+                if ren:
+                    for q in range(ob, cb0):
+                        if body_toks[q].kind == IDENT and body_toks[q].text in ren:
+                            body_toks[q] = T(IDENT, ren[body_toks[q].text])
+                    rep.append(("R0", f"closure parameters renamed {ren} (alpha-renaming to the wrapper's names)"))
         if ob >= len(body_toks) or body_toks[ob].text != "{":
             raise AnchorLost(f"block_closure {a['block_closure']!r}: the closure body is not a block")
         cb = match_close(body_toks, ob)
